@@ -182,9 +182,11 @@ pub struct UCase {
     #[serde(default)]
     pub sink: (u8, u16),
     /// via_sets: (number of record sets used in rotation - 1, n of read_record_set_exact or 0 = read_record_set);
-    /// with >= 2 sets the records of a set are written only after the next set has been read
+    /// with >= 2 sets the records of a set are written only after the next set has been read;
+    /// third component: what is done to a set before its records are written: 0 nothing, 1 shrink_buffer_to_fit(),
+    /// 2 the records are taken from a recycled copy filled through clone_from(), 3 both
     #[serde(default)]
-    pub set_plan: (u8, u8),
+    pub set_plan: (u8, u8, u8),
 }
 
 pub struct Unchanged;
@@ -196,6 +198,8 @@ macro_rules! drain_sets {
         let k = ($plan.0 as usize % 3) + 1;
         let n = $plan.1 as usize;
         let mut sets: Vec<$set_ty> = (0..k).map(|_| <$set_ty>::default()).collect();
+        #[allow(unused_mut, unused_variables)]
+        let mut recycled = <$set_ty>::default();
         let mut pending: Option<usize> = None;
         let mut i = 0;
         loop {
@@ -206,9 +210,19 @@ macro_rules! drain_sets {
                 Some(r) => r,
             };
             ensure!(r.is_ok(), $sig, "well-formed input gave {:?}", r.err().map(|e| e.to_string()));
+            if $plan.2 % 4 == 1 || $plan.2 % 4 == 3 {
+                sets[cur].shrink_buffer_to_fit();
+            }
             if k == 1 {
-                for rec in &sets[cur] {
-                    $emit(rec);
+                if $plan.2 % 4 >= 2 {
+                    recycled.clone_from(&sets[cur]);
+                    for rec in &recycled {
+                        $emit(rec);
+                    }
+                } else {
+                    for rec in &sets[cur] {
+                        $emit(rec);
+                    }
                 }
             } else {
                 if let Some(p) = pending {
@@ -251,7 +265,7 @@ impl Prop for Unchanged {
                 Format::Fastq => gen::fastq_valid_doc(6),
             };
             let sink = prop_oneof![3 => Just((0u8, 0u16)), 1 => (Just(1u8), 1u16..40), 1 => (Just(2u8), 1u16..40), 1 => (Just(3u8), 0u16..5)];
-            let plan = (0u8..3, prop_oneof![2 => Just(0u8), 2 => 1u8..3, 1 => 3u8..8]);
+            let plan = (0u8..3, prop_oneof![2 => Just(0u8), 2 => 1u8..3, 1 => 3u8..8], prop_oneof![2 => Just(0u8), 1 => 1u8..4]);
             (gen::input_and_cap(f, input), gen::chunks(), any::<bool>(), sink, plan).prop_map(move |((input, cap), chunks, via_sets, sink, set_plan)| UCase { format: f, input, cap, chunks, via_sets, sink, set_plan })
         };
         boxed(prop_oneof![per(Format::Fasta), per(Format::Fastq)])
@@ -283,6 +297,11 @@ impl Prop for Unchanged {
             }
             if c.set_plan.1 > 0 {
                 ctx.class("record sets filled with read_record_set_exact(n)");
+            }
+            match c.set_plan.2 % 4 {
+                1 => ctx.class("records written after shrink_buffer_to_fit()"),
+                2 | 3 => ctx.class("records written from a recycled clone_from() copy"),
+                _ => {}
             }
         }
         let src = crate::source::ChunkedSend::new(c.input.0.clone(), c.chunks.clone());
@@ -393,7 +412,7 @@ impl Prop for Unchanged {
     }
 }
 
-pub const RULE: &str = "sub-check fastq-write-roundtrip: 1..5 records (id/desc/header as for C10, equally long sequence and quality without LF/CR; 1 in 40 records has a header or a sequence+quality of 200..9000 bytes; 1 in 4 writes is preceded by the same call on a writer that fails with an I/O error after k bytes, result ignored) through write_to, write_parts, OwnedRecord::write, RefRecord::write (record parsed from a CRLF rendering), into a Vec, a writer that accepts only part of each buffer or one that is interrupted every few calls, parsed back at a generated capacity: head, seq, qual and id/desc parts come back. Sub-check write-unchanged: well-formed FASTQ/FASTA documents (LF, CRLF or per-record/per-line mixture, with/without final terminator, blank tail / blank lines) x capacity x chunk script x {next, 1..3 record sets used in rotation and filled with read_record_set or read_record_set_exact(n), the records of a set being written after the next set was read}: FASTQ: every record's write_unchanged output = its original bytes (+ LF iff the model says its fourth line is unterminated) and the concatenation = the input up to the end of the last record; FASTA: output ends in LF, equals the record's byte range after stripping trailing CR/LF, and re-parses to exactly one identical owned record. Non-trivial = CRLF or missing final terminator or a record straddling a refill (unchanged) / >= 2 records, empty sequence or description (round trip). Distinct = hash(case).";
+pub const RULE: &str = "sub-check fastq-write-roundtrip: 1..5 records (id/desc/header as for C10, equally long sequence and quality without LF/CR; 1 in 40 records has a header or a sequence+quality of 200..9000 bytes; 1 in 4 writes is preceded by the same call on a writer that fails with an I/O error after k bytes, result ignored) through write_to, write_parts, OwnedRecord::write, RefRecord::write (record parsed from a CRLF rendering), into a Vec, a writer that accepts only part of each buffer or one that is interrupted every few calls, parsed back at a generated capacity: head, seq, qual and id/desc parts come back. Sub-check write-unchanged: well-formed FASTQ/FASTA documents (LF, CRLF or per-record/per-line mixture, with/without final terminator, blank tail / blank lines) x capacity x chunk script x {next, 1..3 record sets used in rotation and filled with read_record_set or read_record_set_exact(n), the records of a set being written after the next set was read, optionally after shrink_buffer_to_fit() or from a recycled copy filled through clone_from()}: FASTQ: every record's write_unchanged output = its original bytes (+ LF iff the model says its fourth line is unterminated) and the concatenation = the input up to the end of the last record; FASTA: output ends in LF, equals the record's byte range after stripping trailing CR/LF, and re-parses to exactly one identical owned record. Non-trivial = CRLF or missing final terminator or a record straddling a refill (unchanged) / >= 2 records, empty sequence or description (round trip). Distinct = hash(case).";
 
 pub fn run(tier: Tier) -> i32 {
     let mut run = Run::new("C11", tier, "exploration");
